@@ -527,5 +527,5 @@ CLAIM = {
     "note": "Trusted: CPython ast, vsa symbolic folding, datetime/calendar semantics. Not decided: the count-weighted-mean identity, the inverse "
             "property for every calendar day, %U week labels.",
     "technique": "static analysis: registry/category exhaustiveness, positional index discipline, symbolic folding to reference forms "
-                 "(datetime.replace field sets), who-may-call (local-time API = 0 with control)",
+                 "(datetime.replace field sets), who-may-call (local-time API = 0 with control); C11.7 lint on strftime/strptime format strings (ISO week %V only together with ISO year %G)",
 }
